@@ -54,6 +54,11 @@ CLAIMED = {
    text="Deductive through the grammar layer: a symbolic 12-octet date-time (all valid dates 1..9999, all times, hundredths 0..99/0xFF, deviation -720..720/0x8000, all 256 status octets, any day of week) in each of the six syntactic positions decodes to the same civil fields, "
         "microseconds == hundredths x 10000, UTC offset == -deviation or naive; the status octet is consumed exactly once on either branch.",
    note="Assumed: construct parse rules (Peek/If/BitStruct/ExprAdapter/Computed), datetime/timezone/timedelta record model with documented range checks.", technique=DED + " via the grammar layer", design="DESIGN.md section 9 C10"),
+ "C11": dict(level="other",
+   text="Deductive part: what _decode_parsed stores for an arbitrary single-valued data set (key = common name of C.D.E from the table checked against the documented one, else C.D.E; V/A/var/varh any case -> float(value); "
+        "kW/kWh/kvar/kvarh -> int(float(value) x 1000); clock 1.0.0 -> parsed date-time; else verbatim; only ValueError escapes), decode_p1_readout_content / decode_p1_readout == _decode_parsed(parse_data_block(text)) "
+        "(+ exactly the two identification fields), parser termination. BOUNDED on the real code: parse_data_block against the IEC 62056-21 grammar, identification capture groups, float clause sweep. Hence 'other'.",
+   note="Known finding (open): the float clause is false above ~10^14 (binary64). Bounded: 1500/40000 generated blocks, all three-decimal values below 300/10000 plus random values.", technique=DED + " (string theory) for the decode mapping; bounded grammar-based conformance for the parser and the float clause", design="DESIGN.md section 9 C11"),
  "C12": dict(level="proof",
    text="Deductive: per-call contract of decode_message_payload and decode_message from the real source, decoder table read from the source, decoders abstract (outcome = function of the payload): None exactly when every decoder rejects, "
         "otherwise the first accepting decoder in cyclic order from the remembered one (hence the remembered one whenever it accepts), previous_success_decoder names it and is unchanged when nobody accepts, decode_message agrees with "
@@ -70,6 +75,11 @@ CLAIMED = {
         "satisfying the invariant and every bytes argument; every implicit failure point of the subset is a safety obligation or a forked exceptional edge that must be infeasible; invariants re-established (reader remains usable).",
    note="Assumed: logging does not raise; MemoryError/RecursionError out of scope; prelude contracts of the byte/str library functions.",
    technique=DED + "; generated safety obligations and exceptional edges", design="DESIGN.md section 9 C14"),
+ "C15": dict(level="other",
+   text="Deductive part: the AutoDecoder loops let nothing escape (given decoders raise only ConstructError / ValueError) and return dict or None; the P1 text path terminates for every text (loop measures over str.find as IndexOf) and, with "
+        "DataSetValue.parse, _parse_p1_datetime, _decode_parsed, parse_p1_readout_content, decode_p1_readout_content, lets only ValueError escape. That the construct-based decoders raise only ConstructError / ValueError on EVERY byte string "
+        "needs the type of all parse trees of each grammar; not mechanised: a BOUNDED mutation fuzz of the real AutoDecoder stands in. Hence 'other'.",
+   note="Bounded: 1711 (quick) / ~66000 (thorough) payloads x remembered decoders, 2 s per call.", technique=DED + " for the loops, termination measures and P1 exception classes; bounded mutation fuzz for the construct decoders", design="DESIGN.md section 9 C15"),
  "C16": dict(level="other",
    text="Deductive part (unbounded): the state claims of C16 are clauses of the reader invariants and hold after arbitrary input - no escape pending after a flag / frame start / discard, octets == unstuff(raw) restarts at the flag, "
         "a frame starts only right after a flag, frames never exceed 2047 octets, P1 hunt mode keeps no collected octets. The composition 'every subsequent clean message except possibly the first is delivered' is a BOUNDED stand-in "
